@@ -224,6 +224,18 @@ func sameAccess(a, b ssa.Value) bool {
 	case *ssa.IndexAddr:
 		y, ok := b.(*ssa.IndexAddr)
 		return ok && sameAccess(x.X, y.X) && sameAccess(x.Index, y.Index)
+	case *ssa.BinOp:
+		y, ok := b.(*ssa.BinOp)
+		return ok && x.Op == y.Op && sameAccess(x.X, y.X) && sameAccess(x.Y, y.Y)
+	case *ssa.Call:
+		// len(x) of the same x
+		y, ok := b.(*ssa.Call)
+		if !ok {
+			return false
+		}
+		bx, okx := x.Common().Value.(*ssa.Builtin)
+		by, oky := y.Common().Value.(*ssa.Builtin)
+		return okx && oky && bx.Name() == by.Name() && (bx.Name() == "len" || bx.Name() == "cap") && sameAccess(x.Common().Args[0], y.Common().Args[0])
 	case *ssa.MakeInterface:
 		y, ok := b.(*ssa.MakeInterface)
 		return ok && sameAccess(x.X, y.X)
